@@ -33,7 +33,7 @@ theorem newGraphNode_ctorDesc2 (w : St) (s : Nat) (node : GNode) : (w.newGraphNo
       (i2 j).2.2.2.1.trans (g2 j).2.2.2.1, (i2 j).2.2.2.2.trans (g2 j).2.2.2.2⟩⟩
 
 /-- the accepted outcome of a Provide (and the model's "dig panics" answers): what was added -/
-structure Added2 (st st' : St) (target : Nat) (results : List RSlot) (keys : List Key) : Prop where
+structure Added2 (st st' : St) (target : Nat) (results : List RSlot) (keys : List Key) (fn0 : Fn) : Prop where
   chk : ∃ X : ScopeSt, X.providers = (st.scope target).providers ∧ visitKeys X (slotResults results) [] = .ok keys
   len : st'.ctors.length = st.ctors.length + 1
   node : (st'.ctor st.ctors.length).results = results ∧ (st'.ctor st.ctors.length).s = target
@@ -47,10 +47,12 @@ structure Added2 (st st' : St) (target : Nat) (results : List RSlot) (keys : Lis
   fresh : (st'.ctor st.ctors.length).called = false
   wfp : ParamsWF (st'.ctor st.ctors.length).params
   wfr : SlotsWF results
+  /-- the new node carries the provided function -/
+  newfn : (st'.ctor st.ctors.length).fn = fn0
 
 theorem apiProvide_reg2 (ctx : Ctx) (fn : Fn) (st : St) (i s : Nat) (o : ProvideOpts) :
     EqButVerified st (apiProvide ctx fn st i s o).1 ∨
-    ∃ results keys, Added2 st (apiProvide ctx fn st i s o).1 (if o.export_ then St.root else s) results keys := by
+    ∃ results keys, Added2 st (apiProvide ctx fn st i s o).1 (if o.export_ then St.root else s) results keys fn := by
   have hrefl : EqButVerified st st :=
     ⟨rfl, rfl, rfl, rfl, rfl, rfl, rfl, rfl, fun _ => ⟨rfl, rfl, rfl, rfl, rfl, rfl, rfl, rfl, rfl, rfl⟩⟩
   unfold apiProvide
@@ -153,12 +155,12 @@ theorem apiProvide_reg2 (ctx : Ctx) (fn : Fn) (st : St) (i s : Nat) (o : Provide
                     intro j; rw [← (hgs.2.2.2 j).2.1]; exact hp4 j
                   have hadded : ∀ w6 : St, w6.ctors = w5.ctors → w6.scopes.length = w5.scopes.length →
                       (∀ j, (w6.scope j).providers = (w5.scope j).providers) → w6.decos = st.decos →
-                      Added2 st w6 target results (k0 :: ks) := by
+                      Added2 st w6 target results (k0 :: ks) fn := by
                     intro w6 h61 h62 h63 h64
                     have hctor6 : w6.ctor st.ctors.length = w3.ctor st.ctors.length := by simp [St.ctor, h61, hc5]
                     refine ⟨⟨w3.scope target, hp3 target, hvk⟩, by rw [h61, hc5]; exact hlen3, ?_, ?_, ?_, ?_, by rw [h62, hw5.len],
                       ?_, h64, by rw [hctor6, hnode3.2.2.2.2], by rw [hctor6, hnode3.2.2.2.1]; exact parseParams_wf ctx.env st target fn params w1 hpp,
-                      newResultList_wf ctx.env _ fn results hnr⟩
+                      newResultList_wf ctx.env _ fn results hnr, by rw [hctor6, hnode3.1]⟩
                     · have : w6.ctor st.ctors.length = w3.ctor st.ctors.length := by simp [St.ctor, h61, hc5]
                       rw [this]; exact ⟨hnode3.2.1, hnode3.2.2.1⟩
                     · have hk5 := ctorsKeep_work hw5
@@ -195,7 +197,7 @@ end Dig
 namespace Dig
 
 /-- the accepted outcome of a Decorate: what was added -/
-structure AddedDeco (env : TyEnv) (st st' : St) (s : Nat) : Prop where
+structure AddedDeco (env : TyEnv) (st st' : St) (s : Nat) (fn0 : Fn) : Prop where
   ctors : st'.ctors = st.ctors
   len : st'.decos.length = st.decos.length + 1
   pre : ∀ d, d < st.decos.length → st'.deco d = st.deco d
@@ -207,9 +209,11 @@ structure AddedDeco (env : TyEnv) (st st' : St) (s : Nat) : Prop where
       else (st.scope j).decorators)
   providers : ∀ j, (st'.scope j).providers = (st.scope j).providers
   scopesLen : st'.scopes.length = st.scopes.length
+  /-- the new node carries the decorating function -/
+  newfn : (st'.deco st.decos.length).fn = fn0
 
 theorem apiDecorate_reg (ctx : Ctx) (fn : Fn) (st : St) (i s : Nat) (cb info : Bool) :
-    (apiDecorate ctx fn st i s cb info).1 = st ∨ AddedDeco ctx.env st (apiDecorate ctx fn st i s cb info).1 s := by
+    (apiDecorate ctx fn st i s cb info).1 = st ∨ AddedDeco ctx.env st (apiDecorate ctx fn st i s cb info).1 s fn := by
   unfold apiDecorate
   cases hnf : fn.nonfunc with
   | some _ => exact Or.inl rfl
@@ -245,7 +249,7 @@ theorem apiDecorate_reg (ctx : Ctx) (fn : Fn) (st : St) (i s : Nat) (cb info : B
                 intro f
                 show (w.decos ++ [_]).getD st.decos.length default = _
                 rw [← hlen, getD_append_one]; simp
-              refine ⟨hg.1.symm, by simp [St.modScope, hlen], ?_, ?_, ?_, ?_, by simp [St.modScope, hg.2.2.2.2.2.2.1]⟩
+              refine ⟨hg.1.symm, by simp [St.modScope, hlen], ?_, ?_, ?_, ?_, by simp [St.modScope, hg.2.2.2.2.2.2.1], by rw [hnode]⟩
               · intro d hd
                 show (w.decos ++ [_]).getD d default = st.decos.getD d default
                 rw [getD_append_one, hlen, if_pos hd, hg.2.1]
